@@ -579,7 +579,16 @@ def value_read_nodes(fn: ast.AST, e: ast.AST) -> list[tuple[str, ast.AST]]:
 NUMERIC_CONSTRUCTORS = ("float", "int", "Decimal", "Fraction", "complex")
 
 
-def _const_keys(e: ast.AST) -> list[str] | None:
+def _const_keys(e: ast.AST, mod: Module | None = None, fn: ast.AST | None = None) -> list[str] | None:
+    """the strings of a constant collection of strings: a display, or (mod given) a module-level name that denotes one constant
+    sequence for the whole life of the module (_module_tables) and is not a local name of fn"""
+    if isinstance(e, ast.Name) and mod is not None:
+        tables = mod.__dict__.get("_c09_tables")
+        if tables is None:
+            tables = mod.__dict__["_c09_tables"] = _module_tables(mod.tree)
+        if e.id in tables and not (fn is not None and any(
+                (isinstance(n, ast.Name) and n.id == e.id and isinstance(n.ctx, (ast.Store, ast.Del))) or (isinstance(n, ast.arg) and n.arg == e.id) for n in ast.walk(fn))):
+            e = ast.Tuple(elts=tables[e.id], ctx=ast.Load())
     if isinstance(e, (ast.Tuple, ast.List, ast.Set)) and e.elts and all(isinstance(x, ast.Constant) and isinstance(x.value, str) for x in e.elts):
         return [x.value for x in e.elts]  # type: ignore[attr-defined]
     return None
@@ -610,11 +619,11 @@ def feasible_keys(mod: Module, fn: ast.AST, read: ast.AST, universe: set[str]) -
         gens = p.generators if isinstance(p, (ast.GeneratorExp, ast.ListComp, ast.SetComp, ast.DictComp)) else []
         for g in gens:
             if any(isinstance(x, ast.Name) and x.id == k.id for x in ast.walk(g.target)):
-                c = _const_keys(g.iter)
+                c = _const_keys(g.iter, mod, fn)
                 if c is not None and isinstance(g.target, ast.Name):
                     keys &= set(c)
         if isinstance(p, (ast.For, ast.AsyncFor)) and isinstance(p.target, ast.Name) and p.target.id == k.id:
-            c = _const_keys(p.iter)
+            c = _const_keys(p.iter, mod, fn)
             if c is not None:
                 keys &= set(c)
         if p is fn:
@@ -648,7 +657,7 @@ def fields_of(mod: Module, fn: ast.AST, e: ast.AST, universe: set[str], depth: i
                     for t in st.targets:
                         if isinstance(t, (ast.Tuple, ast.List)) and isinstance(st.value, (ast.GeneratorExp, ast.ListComp)) and len(st.value.generators) == 1 \
                                 and not st.value.generators[0].ifs and isinstance(st.value.generators[0].target, ast.Name):
-                            ks = _const_keys(st.value.generators[0].iter)
+                            ks = _const_keys(st.value.generators[0].iter, mod, fn)
                             if ks is not None and len(ks) == len(t.elts):
                                 for i, el in enumerate(t.elts):
                                     if isinstance(el, ast.Name) and el.id == n.id:
@@ -1042,11 +1051,52 @@ class Evaluator:
     format, strip ...), isinstance on an Obj, list.append, and calls of functions that `lookup` finds (evaluated the same way).
     Nothing of the analysed package is run: the evaluator walks the `ast`.  Whatever it does not model ends the evaluation (_Unk)."""
 
-    def __init__(self, lookup, builtin_classes: dict[str, type], budget: int = 4000, module_value=None):
+    def __init__(self, lookup, builtin_classes: dict[str, type], budget: int = 4000, module_value=None, class_lookup=None):
         self.lookup = lookup  # name -> FunctionDef | None
         self.classes = builtin_classes
         self.budget = budget
         self.module_value = module_value  # name -> the one expression bound to it at module level | None
+        self.class_lookup = class_lookup  # name -> ClassDef of the analysed package | None
+
+    @staticmethod
+    def plain_class(cls: ast.AST) -> dict[str, ast.AST] | None:
+        """the methods of a class whose instances the evaluator can make and call: no base class (but `object`), no metaclass or
+        other class keyword, no decorator, a body of plain methods / constant attributes / docstrings only, and none of the
+        methods that change what construction, attribute access or calling mean (__new__, __getattr__, __getattribute__,
+        __setattr__, __init_subclass__, __class_getitem__ ...).  None for any other class."""
+        if not isinstance(cls, ast.ClassDef) or cls.keywords or cls.decorator_list or any(norm(b) != "object" for b in cls.bases):
+            return None
+        methods: dict[str, ast.AST] = {}
+        for st in cls.body:
+            if isinstance(st, ast.FunctionDef):
+                if st.decorator_list or st.name in methods:
+                    return None
+                methods[st.name] = st
+            elif isinstance(st, ast.Expr) and isinstance(st.value, ast.Constant):
+                continue
+            elif isinstance(st, (ast.Assign, ast.AnnAssign, ast.Pass)):
+                continue
+            else:
+                return None
+        if set(methods) & {"__new__", "__getattr__", "__getattribute__", "__setattr__", "__delattr__", "__init_subclass__", "__set_name__", "__get__"}:
+            return None
+        return methods
+
+    def instantiate(self, cls: ast.AST, args: list, kwargs: dict, depth: int) -> "Obj":
+        """Cls(*args, **kwargs) for a plain class of the package: a fresh object, then its __init__ (evaluated; `self.a = v` sets
+        the attribute of the object)"""
+        methods = self.plain_class(cls)
+        if methods is None:
+            raise _Unk("class")
+        o = Obj(cls.name, {}, None)  # type: ignore[attr-defined]
+        o.methods = methods  # type: ignore[attr-defined]
+        init = methods.get("__init__")
+        if init is None:
+            if args or kwargs:
+                raise _Unk("arity")
+        elif self.call(init, [o] + list(args), kwargs, depth + 1) is not None:
+            raise _Unk("__init__ returns a value")
+        return o
 
     def apply(self, f, args: list, kwargs: dict, depth: int):
         """the value a callable value gives for the arguments: a function of the package (evaluated), a functools.partial of one, a
@@ -1060,6 +1110,8 @@ class Evaluator:
             else:
                 kw = {**f.kwargs, **kwargs}
             return self.apply(f.callee, list(f.args) + list(args), kw, depth)
+        if isinstance(f, Obj) and "__call__" in getattr(f, "methods", {}) and "__call__" not in f.attrs:
+            return self.call(f.methods["__call__"], [f] + list(args), kwargs, depth + 1)  # type: ignore[attr-defined]
         if any(f is getattr(_op, n) for n in _OPERATOR_FUNCTIONS) and not kwargs and all(isinstance(x, _PLAIN) for x in args):
             try:
                 return f(*args)
@@ -1173,6 +1225,9 @@ class Evaluator:
         elif isinstance(t, (ast.Tuple, ast.List)) and isinstance(v, (tuple, list)) and len(v) == len(t.elts) and not any(isinstance(x, ast.Starred) for x in t.elts):
             for x, y in zip(t.elts, v):
                 self.store(x, y, env)
+        elif isinstance(t, ast.Attribute) and isinstance(t.value, ast.Name) and isinstance(env.get(t.value.id), Obj) and hasattr(env[t.value.id], "methods") \
+                and not t.attr.startswith("__"):
+            env[t.value.id].attrs[t.attr] = v  # an instance of a plain class of the package (see instantiate)
         else:
             raise _Unk("store")
 
@@ -1314,6 +1369,9 @@ class Evaluator:
                 f = self.lookup(e.func.id)
                 if f is not None:
                     return self.call(f, args, kwargs, depth + 1)
+                c = self.class_lookup(e.func.id) if self.class_lookup is not None else None
+                if c is not None:
+                    return self.instantiate(c, args, kwargs, depth)
                 bound = self.module_value(e.func.id) if self.module_value is not None and e.func.id not in _PURE_BUILTINS else None
                 if bound is not None:
                     return self.apply(self.expr(bound, {}, depth + 1), args, kwargs, depth)
